@@ -139,3 +139,9 @@ Example ex_k2_zero_zero_refused : forall two_pass,
   | Ok f => bigbedtobed_file idf f None None None = Err R_INVALID
   | _ => False end.
 Proof. intros [|]; vm_compute; reflexivity. Qed.
+
+(* the list-level converters accept the same example texts (hypothesis of the bridge theorems in CliEndToEndBridge.v) *)
+Example ex_list_model_accepts :
+  (exists file, bedgraph_to_bigwig toy_pf ex_cs_text ex_bg_text = Ok file)
+  /\ (exists file, bed_to_bigbed false ex_cs_text ex_bed_text = Ok file).
+Proof. split; eexists; vm_compute; reflexivity. Qed.
